@@ -25,39 +25,50 @@ FUNCTIONS = [
     'src.graph_utils.find_all_paths',
     'src.graph_utils.find_longest_paths.exist',
     'src.graph_utils.find_longest_paths',
+    'src.graph_utils.find_all_reachable',
 ]
 TRUSTED = [
     'vertex equality/hash is a congruence (abstract sort Node: == is identity of the abstract value)',
     'RReach (left-generated closure, find_sources) and Reach (right-generated) are the same relation '
     '(proved in lean/Reach.lean, re-checked by `lean` in the thorough tier; not used across contracts)',
+    'find_all_reachable uses ONE lemma the solver cannot derive (it needs induction): in a finite list of sequences every '
+    'member is, or is a proper prefix of, a member that is a proper prefix of no member (ghost MaxPrefixLemma; proved as '
+    'theorem exists_maximal_extension in lean/MaxPrefix.lean, re-checked by `lean` in the thorough tier; the correspondence '
+    'between the Lean statement over List (List a) and the SMT axiom over Seq[Seq[Node]] is by hand)',
 ]
 ASSUMPTIONS = [
-    'find_all_reachable is NOT proved: bounded stand-in only (exhaustive over all digraphs up to the stated vertex '
-    'count, self-loops and non-key targets included); find_all_paths is proved partially correct (exactly the simple '
-    'paths extending the given prefix; termination is not proved)',
+    'find_all_reachable is proved to return exactly the vertices that lie on a simple path starting at the vertex (the '
+    'union over ALL simple paths, not only the maximal ones it iterates over); that this set is the reflexive-transitive '
+    'closure of the edge relation (every reachable vertex is reachable by a simple path) is NOT proved: bounded stand-in '
+    '(exhaustive over all digraphs up to the stated vertex count, self-loops and non-key targets included); find_all_paths '
+    'is proved partially correct (exactly the simple paths extending the given prefix; termination is not proved)',
     'find_longest_paths: its result is exactly the elements of find_all_paths(graph, vertex) which are not a proper '
     'prefix of another element',
 ]
-NOT_UNDER_CONTRACT = ['src.graph_utils.find_all_reachable (bounded)',
-                      'src.analysis.type_dependency_analysis.is_combination_feasible (only consumes dfs; meaning is C03 residual)']
+NOT_UNDER_CONTRACT = ['src.analysis.type_dependency_analysis.is_combination_feasible (only consumes dfs; meaning is C03 residual)']
 
 
 def custom_proof(tier):
-    """thorough tier: re-check lean/Reach.lean (Reach and RReach are the same relation) with the installed Lean + Mathlib"""
+    """thorough tier: re-check the two Lean files (Reach = RReach; maximal-extension lemma used by find_all_reachable) with
+    the installed Lean + Mathlib"""
     if tier != 'thorough':
         return []
     import subprocess
     import time
-    t0 = time.time()
-    try:
-        p = subprocess.run(['lean', os.path.join(HERE, 'lean', 'Reach.lean')], capture_output=True, text=True, timeout=900)
-        ok = p.returncode == 0 and 'error' not in (p.stdout + p.stderr)
-        why = (p.stdout + p.stderr).strip()[:300]
-    except Exception as e:      # lean missing / timeout: undecided, never a violation
-        return [dict(name='lean/Reach.lean/reach_iff_rreach', function='lean/Reach.lean', lineno=0, kind='proof',
-                     status='undecided', secs=time.time() - t0, backend='lean', reason='could not run lean: %r' % e)]
-    return [dict(name='lean/Reach.lean/reach_iff_rreach', function='lean/Reach.lean', lineno=0, kind='proof',
-                 status='proved' if ok else 'failed', secs=time.time() - t0, backend='lean 4 + Mathlib', reason=why)]
+    out = []
+    for fname, thm in (('Reach.lean', 'reach_iff_rreach'), ('MaxPrefix.lean', 'exists_maximal_extension')):
+        t0 = time.time()
+        name = 'lean/%s/%s' % (fname, thm)
+        try:
+            p = subprocess.run(['lean', os.path.join(HERE, 'lean', fname)], capture_output=True, text=True, timeout=900)
+            txt = p.stdout + p.stderr
+            ok = p.returncode == 0 and 'error' not in txt and 'sorry' not in txt
+            out.append(dict(name=name, function='lean/' + fname, lineno=0, kind='proof', status='proved' if ok else 'failed',
+                            secs=time.time() - t0, backend='lean 4 + Mathlib', reason=txt.strip()[:300]))
+        except Exception as e:      # lean missing / timeout: undecided, never a violation
+            out.append(dict(name=name, function='lean/' + fname, lineno=0, kind='proof', status='undecided',
+                            secs=time.time() - t0, backend='lean', reason='could not run lean: %r' % e))
+    return out
 
 
 def _load():
